@@ -69,8 +69,13 @@ class Contract:
         ghost_pre=None,
         no_raise=False,
         inline_calls=False,
+        variant=None,
+        ghost=None,
+        hints=(),
     ):
-        self.key = func
+        self.func = func
+        self.key = func + (f"#{variant}" if variant else "")
+        self.variant = variant
         self.module, self.qualname = func.split(":")
         self.params = dict(params or {})  # name -> sort spec (str | callable(mk))
         self.requires = list(requires)
@@ -90,6 +95,8 @@ class Contract:
         self.kwargs = kwargs  # for **kwargs functions: {"known": {...}, "open": bool}
         self.ghost_pre = ghost_pre
         self.no_raise = no_raise
+        self.hints = list(hints)  # instances of trusted builtin-model facts, assumed (listed in evidence)
+        self.ghost = dict(ghost or {})  # extra universally quantified symbols usable in clauses
         self.inline_calls = inline_calls  # verified against its contract, but inlined at call sites
 
 
@@ -141,6 +148,8 @@ class ContractDB:
             for a in d.wf():
                 st.assume(a)
             return st.alloc(d)
+        if spec.startswith("obj:"):
+            return st.alloc(Obj(spec[4:], {}))
         if spec.startswith("opaque:"):
             return Opaque(spec[len("opaque:"):])
         if spec.startswith("seq["):
@@ -207,7 +216,38 @@ def _sb_same_dict(ex, st, args, kwargs):
     yield st, SV("bool", bm.sdict_equal(a, b, ordered=True))
 
 
-SPEC_BUILTINS = {"pad": _sb_pad, "matches": _sb_matches, "nat": _sb_nat, "key_at": _sb_key_at, "val_at": _sb_val_at,
+def _sb_strip_unique(ex, st, args, kwargs):
+    s, a, r, b = [bm.sstr(x) for x in args]
+    yield st, SV("bool", bm.strip_unique_instance(s, a, r, b))
+
+
+def _sb_strip_padded(ex, st, args, kwargs):
+    """strip_padded(s, w1, tok, w2, pattern): s = w1+tok+w2, w1/w2 whitespace, tok in L(pattern) whose
+    strings never start/end with whitespace (decided on the regex)  =>  s.strip() == tok."""
+    from .regex import ends_exclude, to_z3
+
+    s, a, r, b, pat = args
+    if is_sym(pat):
+        raise Unsupported("strip_padded needs a literal pattern")
+    if not ends_exclude(pat, bm.PY_WS):
+        raise Unsupported(f"strip_padded: pattern {pat!r} may start or end with whitespace / be empty")
+    s, a, r, b = [bm.sstr(x) for x in (s, a, r, b)]
+    ws = z3.Star(bm.RE_WS)
+    yield st, SV("bool", z3.Implies(z3.And(s == z3.Concat(a, r, b), z3.InRe(a, ws), z3.InRe(b, ws), z3.InRe(r, to_z3(pat))),
+                                    bm.PY_STRIP(s) == r))
+
+
+def _sb_int_of_signed(ex, st, args, kwargs):
+    c, sg, d = [bm.sstr(x) for x in args]
+    yield st, SV("bool", bm.int_of_signed_instance(c, sg, d))
+
+
+def _sb_py_strip(ex, st, args, kwargs):
+    (s,) = args
+    yield st, bm.model_strip(ex, st, s)
+
+
+SPEC_BUILTINS = {"int_of_signed": _sb_int_of_signed, "strip_padded": _sb_strip_padded, "strip_unique": _sb_strip_unique, "py_strip": _sb_py_strip, "pad": _sb_pad, "matches": _sb_matches, "nat": _sb_nat, "key_at": _sb_key_at, "val_at": _sb_val_at,
                  "same_dict": _sb_same_dict}
 
 
@@ -736,8 +776,10 @@ def verify_function(db: ContractDB, c: Contract, case=None) -> FunctionResult:
         if extra:
             raise SourceError(f"{c.key}: contract declares unknown parameters {sorted(extra)}")
         fr0.env.update(env)
-        env = dict(env)
+        ghost_env = {g: db.make_value(ex, st, srt, g) for g, srt in c.ghost.items()}
+        env = {**ghost_env, **env}
         res.param_values = dict(env)
+        res.ghost_names = sorted(ghost_env)
         for r in c.requires + (list(case[1]) if case else []):
             st.assume(eval_spec(ex, st, r, env, what="requires"))
         if c.ghost_pre:
@@ -749,6 +791,8 @@ def verify_function(db: ContractDB, c: Contract, case=None) -> FunctionResult:
         r = chk.check()
         ex.obligations.append(Obligation(f"{c.qualname}.requires-satisfiable", "vacuity", [], z3.BoolVal(r != z3.unsat),
                                          info={"clause": " and ".join(c.requires) or "True"}))
+        for h in c.hints:
+            st.assume(eval_spec(ex, st, h, env, what="hint"))
         # lemmas: valid facts over the parameters, proved on their own and then assumed
         for i, lem in enumerate(c.lemmas):
             t = eval_spec(ex, st, lem, env, what=f"lemma{i}")
